@@ -18,7 +18,7 @@ RULE = ('caches (and FanoutCache shards) holding inline, binary-file, text-file 
         'must be gone. evaluations = damage cases; distinct_nontrivial = distinct (container, sorted damage kinds, '
         'value modes hit) cases')
 DISTINCT = ('damage_cases',)
-REQUIRED = ('single_damage_cases', 'combined_damage_cases', 'fanout_cases', 'plain_checks_compared', 'fix_then_clean',
+REQUIRED = ('spelling_relative', 'spelling_dotdot', 'single_damage_cases', 'combined_damage_cases', 'fanout_cases', 'plain_checks_compared', 'fix_then_clean',
             'items_read_after_fix', 'kinds_deleted', 'kinds_truncated', 'kinds_extended', 'kinds_unknown', 'kinds_emptydir',
             'kinds_count', 'kinds_size')
 ASSUMPTIONS = ('a repair may legitimately add "empty directory" warnings for directories it has just emptied',)
@@ -167,7 +167,26 @@ def classify_unreadable(row):
 
 
 def case(dc, sc, res, rng, kinds, fanout, label):
+    spelling = gen.pick(rng, ['absolute', 'absolute', 'relative', 'dotdot', 'trailing-slash'])
+    cwd = os.getcwd()
+    try:
+        return _case(dc, sc, res, rng, kinds, fanout, label, spelling)
+    finally:
+        os.chdir(cwd)
+
+
+def _case(dc, sc, res, rng, kinds, fanout, label, spelling):
     d = sc.new()
+    real_d = d
+    if spelling == 'relative':
+        os.chdir(os.path.dirname(d))
+        d = os.path.basename(d)
+    elif spelling == 'dotdot':
+        os.makedirs(real_d + '-side', exist_ok=True)
+        d = os.path.join(real_d + '-side', '..', os.path.basename(real_d))
+    elif spelling == 'trailing-slash':
+        d = d + '/'
+    res.count('spelling_' + spelling.replace('-', '_'))
     if fanout:
         f = dc.FanoutCache(d, shards=3, disk_min_file_size=T)
         items = populate(f)
@@ -195,7 +214,7 @@ def case(dc, sc, res, rng, kinds, fanout, label):
             return
         modes = tuple(sorted({r['mode'] for _, _, r in injected if r}))
         res.seen('damage_cases', (fanout, tuple(sorted(kinds)), modes))
-        wit = {'label': label, 'kinds': kinds, 'fanout': fanout,
+        wit = {'label': label, 'kinds': kinds, 'fanout': fanout, 'directory_spelling': spelling,
                'injected': [(w, os.path.relpath(p, d) if p else None) for w, p, _ in injected]}
         obj = dc.FanoutCache(d, shards=3) if fanout else dc.Cache(d)
         try:
@@ -266,7 +285,9 @@ def case(dc, sc, res, rng, kinds, fanout, label):
         finally:
             obj.close()
     finally:
-        sc.drop(d)
+        sc.drop(real_d)
+        if os.path.isdir(real_d + '-side'):
+            os.rmdir(real_d + '-side')
 
 
 def run_shard(tier, seed, shard, nshards, res):
